@@ -26,7 +26,7 @@ HARNESS = ["zz_verif_gorp_test.go"]
 
 # mismatch classes that contradict the property statement; the others are pinned beyond
 # the property (module header of GorpIndex.tla) and are reported as drift
-PROPERTY_CLS = {"view", "get", "query", "scan", "dup", "dup-values", "stale-window", "ordered",
+PROPERTY_CLS = {"view", "get", "residue", "query", "scan", "dup", "dup-values", "stale-window", "ordered",
                 "panic", "error"}
 DRIFT_CLS = {"out", "ordered-tx", "ordered-limit-filter", "harness"}
 
